@@ -98,6 +98,34 @@ example : ∃ c, serialize 2 exSer [(2, false), (1, false)] = some (some c) := b
     commonPrefix, forkMap, writeEdge, labelBits, detect_label_type, label_short_length, label_long_length, label_same_length,
     is_same, exSer]
 
+
+/-- CAPACITY, EXPLICITLY.  For a non-empty map built by `set_int_key` (`DictOK`: distinct keys < 2^n) the Patricia tree `t` of
+`build_tree` always exists (the assertions of `fork_map` never fire; recursion depth ≤ n+1) and spells n-bit keys, and
+`serialize()` returns a cell  iff  every cell of the tree fits (`Edge.Fits`): for each edge, the encoded label in the reference
+constructor — 2+2·len (short), 2+k+len (long) or 3+k (same) bits, k = bit_length(remaining key length) — plus, on a leaf, the
+value's bits is ≤ 1023 and the value has ≤ 4 refs (and the value serialiser itself does not raise).  So cell capacity is the only
+way serialisation fails, and the hypothesis of `c09_roundtrip` is not vacuous. -/
+theorem c09_capacity_explicit {V : Type} (n : Nat) (hn : 0 < n) (ser : V → Option Val) (d : Dict V) (hd : DictOK n d) (hne : d ≠ []) :
+    ∃ t, buildTree n d = some t ∧ Edge.Sized t n ∧ ((serialize n ser d).isSome ↔ Edge.Fits ser t n) :=
+  serialize_iff_fits n hn ser d hd hne
+
+/-- every map reached by accepted `set_int_key` calls satisfies `DictOK` -/
+theorem c09_dict_ok {V : Type} (n : Nat) (ins : List (Int × V)) (d : Dict V) (h : setAll n ins [] = some d) : DictOK n d :=
+  setAll_ok n ins [] d ⟨by simp, by simp⟩ h
+
+/-- width 1023, the single all-zero key: the label is `hml_same` (13 bits); any value of ≤ 1010 bits and ≤ 4 refs fits. -/
+theorem c09_capacity_zero_key_1023 {V : Type} (ser : V → Option Val) (v : V) (vb : Bits) (vr : List Cell) (hv : ser v = some (vb, vr))
+    (hb : vb.length ≤ 1010) (hr : vr.length ≤ 4) : Edge.Fits ser (.leaf (List.replicate 1023 false) v) 1023 :=
+  fits_zero_key ser v vb vr hv hb hr
+
+/-- width 1023, a single key that is not all-0/all-1 can never be serialised: its shortest label needs 2+10+1023 bits. -/
+theorem c09_capacity_wide_key_1023 {V : Type} (ser : V → Option Val) (v : V) (s : Bits) (hl : s.length = 1023) (hs : allSame s = false) :
+    ¬ Edge.Fits ser (.leaf s v) 1023 := not_fits_wide_key ser v s hl hs
+
+/-- width 1: both keys present — root fork (label short, 2 bits), two leaves with 2-bit labels: fits with 2-bit values. -/
+example : Edge.Fits exSer (.fork [] (.leaf [] true) (.leaf [] false)) 1 := by
+  simp [Edge.Fits, exSer, encLen, refLabelKind, lenBits, bitLength, allSame]
+
 /-! non-vacuity of the key checks -/
 example : setIntKey 8 (-1) 7 ([] : Dict Nat) = none := by decide
 example : setIntKey 8 256 7 ([] : Dict Nat) = none := by simp [setIntKey, bitLength]
